@@ -2,6 +2,7 @@
    Decoding of arguments is done here, in Gallina, so that driver.ml has no logic. *)
 From Verif Require Import PyLib ModelTypes Generated_scores Model_scores Spec_scores Run_parse Run_export Run_many Run_store Run_superpose Run_sql Run_contact Run_geom.
 From Verif Require Run_fs.
+From Verif Require Import Run_rmsd.
 Open Scope string_scope.
 
 Definition VresS (r : res string) : V :=
@@ -58,7 +59,10 @@ Definition run (v : V) : V :=
     | None =>
     match Run_fs.run_fs cmd args with
     | Some r => r
+    | None =>
+    match run_rmsd cmd args with
+    | Some r => r
     | None => VErr "unknown-command"
-    end end end end end end end end end end
+    end end end end end end end end end end end
   | _ => VErr "bad-request"
   end.
